@@ -80,6 +80,12 @@ def _cases(tier, seed):
                         if k == 3 and form != "1d" and tier == "quick":
                             continue
                         yield dict(kind="expand", frame=fr, form=form, center=list(c), sizes=list(sl))
+        # windows LARGER than the whole cloud whose centre lies outside it (round 9, seed C14-18: "a window wider than the data holds all of it")
+        for form in ("1d", "2d"):
+            for c in [(9.0, 1.5), (-6.0, 1.0), (2.0, 11.0), (12.0, 12.0), (5.0, 4.0)]:
+                for k in (1, 2):
+                    for sl in itertools.permutations([9.0, 14.0, 30.0], k):
+                        yield dict(kind="expand", frame=fr, form=form, center=list(c), sizes=list(sl))
         for bad in ("oversized_e", "oversized_n", "no_step"):
             yield dict(kind="invalid", frame=fr, bad=bad)
     # projected-coordinate magnitudes, float64 and float32 coordinate arrays (a float32 step is 0.5 there) with Python-float centres that
